@@ -744,6 +744,9 @@ func main() {
 	w("def sargonFilePiece : Nat := %s", spiece)
 	w("def sargonFiles : List Nat := %s", leanList(sfiles))
 	flush("Books.lean")
+
+	// ---- Gen/Engines.lean: the constants of the historical engines (engines.go) ----
+	emitEngines(*repo, *out, b)
 	for _, f := range []struct {
 		tag string
 		f   fn
